@@ -403,6 +403,7 @@ func getLines(refSeq []byte, cFR chan fastaio.EncodedFastaRecord, cUDs chan updo
 
 		if len(FR.Seq) != len(refSeq) {
 			cErr <- errors.New("alignment and reference are not the same width")
+			break
 		}
 
 		cont = false // for tracts of ambiguities
